@@ -54,8 +54,8 @@ class Rigol_Dg4102(QMI_Instrument):
     @rpc_method
     def close(self) -> None:
         _logger.info("[%s] Closing connection to instrument", self._name)
-        self._transport.close()
         super().close()
+        self._transport.close()
 
     def _ask_float(self, cmd: str) -> float:
         """Send a query and return a floating point response.
